@@ -260,9 +260,66 @@ def r5_call_site_layout(ctx, F):
     ctx.floor("C08.R5", "push_pos call sites", n, 1)
 
 
+def r6_builder_counts_in_add(ctx, F):
+    """a def's signature is handed to ParametersSpecBuilder one parameter at a time; the section-closing calls
+    (no_more_positional_only_args / no_more_positional_args) are only made when another ordinary parameter follows, so
+    `def f(a, /)` and `def f(a, /, **kw)` never make the first one. The counts of positional-only and positional
+    parameters and the by-name index are therefore maintained by `add` itself, under the current style - not by the
+    closing calls."""
+    add = F.one(r"eval::runtime::params::spec::ParametersSpecBuilder::<V>::add$")
+    wrote = {m for st in add.stmts if st.bb not in add.cleanup
+             for m in re.findall(r"ParametersSpecBuilder::(positional_only|positional)\}", st.lhs)}
+    ins = [c for c in add.calls if c.bb not in add.cleanup and re.search(r"symbol::map::SymbolMap::<T>::insert$", c.name)]
+    for fld in ("positional_only", "positional"):
+        ctx.check(fld in wrote, "C08.R6", "builder-add-maintains:" + fld,
+                  "`add` updates the %s count as parameters arrive" % fld,
+                  "ParametersSpecBuilder::add no longer maintains `%s`: it is only set by a section-closing call that "
+                  "InstrDef does not make when `/` (or the last positional) is the last ordinary parameter - e.g. "
+                  "`def f(a, /)` then accepts `f(a=1)`" % fld, fn=add)
+    ctx.check(bool(ins), "C08.R6", "builder-add-maintains:names", "`add` records the names that can be passed by keyword",
+              "ParametersSpecBuilder::add no longer fills the by-name index as parameters arrive", fn=add)
+    closers = {short_fn(top_fn(F, f).qpath) for f, c in callers(
+        F, r"ParametersSpecBuilder::<V>::no_more_positional_only_args$")}
+    ctx.note("C08.R6: no_more_positional_only_args is called by %s" % sorted(closers))
+
+
+# who may look at the raw `**mapping` of a call, and why that is fine
+RAW_KWARGS_OK = {
+    "Arguments::names_map": "validates every key (downcast_ref_key_string / unpack_kwargs_key_as_value) before it returns "
+                            "the map",
+    "Arguments::len": "only counts the entries",
+    "no_named_args::bad": "only builds the error for a call that must not have named arguments",
+}
+
+
+def r7_mapping_keys_validated(ctx, F):
+    """the keys of a call's `**mapping` must be strings: every path that turns it into parameter bindings or into a
+    `**kwargs` dict checks that. The raw mapping is read only by the binder (collect_slow, which reports
+    ArgsValueIsNotString - R2) and by the reviewed helpers of Arguments; names_map itself keeps both of its validators."""
+    from kern import reviewed
+    n = 0
+    for f, c in callers(F, r"eval::runtime::arguments::Arguments::<'v, 'a>::unpack_kwargs$"):
+        n += 1
+        who = short_fn(top_fn(F, f).qpath)
+        why = reviewed(F, RAW_KWARGS_OK, who)
+        ctx.check(why is not None, "C08.R7", "raw-mapping-reader:" + who, "reviewed: " + (why or ""),
+                  "`%s` reads the raw `**mapping` of a call (Arguments::unpack_kwargs) and is not a reviewed reader: "
+                  "unless it checks that every key is a string, a call like `f(**{7: 2})` binds instead of failing"
+                  % who, fn=f, line=c.line)
+    ctx.floor("C08.R7", "readers of the raw **mapping", n, 3)
+    nm = F.one(r"eval::runtime::arguments::Arguments::<'v, 'a>::names_map$")
+    v1 = any(re.search(r"downcast_ref_key_string$", c.name) for c in nm.calls if c.bb not in nm.cleanup)
+    v2 = any(re.search(r"unpack_kwargs_key_as_value$", c.name) for c in nm.calls if c.bb not in nm.cleanup)
+    ctx.check(v1 and v2, "C08.R7", "names_map-validates-keys",
+              "names_map validates the keys on both of its paths (only **mapping / names and **mapping)",
+              "Arguments::names_map lost a key validation (%s)" % ("copy path" if not v1 else "merge path"), fn=nm)
+
+
 def run(ctx):
     F = ctx.facts("core")
     r4_phase_order(ctx, F)
+    r7_mapping_keys_validated(ctx, F)
+    r6_builder_counts_in_add(ctx, F)
     r5_call_site_layout(ctx, F)
     r1_fast_path_guard(ctx, F)
     r2_failure_exits(ctx, F)
